@@ -640,6 +640,11 @@ func (c *Conn) handleCall(ctx context.Context, call rpccp.Call, releaseCall capn
 		return nil
 	case rpccp.MessageTarget_Which_promisedAnswer:
 		tgtAns := c.answers[p.target.promisedAnswer]
+		if tgtAns == ans {
+			// A call cannot be pipelined on its own answer: treat the
+			// target as unknown instead of using the half-built entry.
+			tgtAns = nil
+		}
 		if tgtAns == nil || tgtAns.flags&finishReceived != 0 {
 			ans.ret = rpccp.Return{}
 			ans.sendMsg = nil
